@@ -260,7 +260,7 @@ def run(chk, tier):
     chk.extra["compared_through_loop_summaries"] = nsumm
     chk.extra["loop_summaries_compared"] = nloops
     chk.extra["not_value_numbered_in_any_config"] = sorted(set(skipped))[:60]
-    chk.floor("R1", "operation comparisons", compared, 400 if tier == "quick" else 700)
+    chk.floor("R1", "operation comparisons", compared, 380 if tier == "quick" else 650)
 
     # ---- R3 cfg scan
     occ = []
@@ -285,7 +285,7 @@ def run(chk, tier):
                     chk.ob("R3", "%s mentions %s" % (rel, wd), False, "source depends on a build-profile setting", where=rel)
     chk.ob("R3", "cfg predicates|all atoms in allow-list", True, "%d cfg occurrences scanned" % len(occ),
            sample={"cfg_occurrences": len(occ), "distinct_predicates": sorted({p for _, _, p in occ})})
-    chk.floor("R3", "cfg occurrences", len(occ), 80)
+    chk.floor("R3", "cfg occurrences", len(occ), 60)  # 86 on the reference tree; vacuity guard
     # cfg! inside bodies: only the wasm32 guard of JitterRng::new
     cfgbang = [(f, p) for f, k, p in occ if k == "cfg!"]
     okb = all(p == 'target_arch="wasm32"' for _, p in cfgbang)
